@@ -124,6 +124,9 @@ def classify(case, kind, diffs):
     return None
 
 
+OTHER_MODES = ["mysql", "postgres", "mssql", "oracle", "hql", "snowflake", "redshift", "ibm_db2", "sqlite", "spark_sql", "athena", "databricks", "vertics"]
+
+
 def check_case(ctx, case):
     ctx.evaluated()
     exp = case["expected"]
@@ -152,6 +155,17 @@ def check_case(ctx, case):
         what = first.split(" ")[0] + ("." + first.split(".")[-1] if first.startswith("column ") else "")
         ctx.violation(what, case, {"diffs": [(w, short(o, 300), short(x, 300)) for w, o, x in errs[:5]]},
                       kf=classify(case, what, errs))
+    if not errs and int(digest(case["ddl"])[:4], 16) % 6 == 0:
+        # which columns carry the keys / uniques / checks / references does not depend on the output mode asked for
+        mode = OTHER_MODES[int(digest(case["ddl"])[4:8], 16) % len(OTHER_MODES)]
+        r2 = parse(case["ddl"], output_mode=mode)
+        ctx.evaluated()
+        ctx.obs["cases_repeated_in_a_dialect_mode"] += 1
+        e2 = S.compare_table(entities(r2[1])[0], exp) if r2[0] == "ok" and len(entities(r2[1])) == 1 else [("result", short(r2, 200), "one table")]
+        if case.get("feature") == "double_pk":
+            e2 = [e for e in e2 if e[0] != "primary_key"]
+        if e2:
+            ctx.violation("in_mode:" + e2[0][0].split(" ")[0], dict(case, mode=mode), {"mode": mode, "diffs": [(w, short(o, 300), short(x, 300)) for w, o, x in e2[:5]]})
     if STATE.counters.get("contract_violation:pk_not_nullable", 0) > nb and not case.get("feature"):
         ctx.violation("contract:pk_not_nullable", case, {"witness": STATE.contract_violations[before:before + 2]})
     for k in ("primary_key",):
@@ -325,7 +339,19 @@ def script_cases(ctx, n):
         parts = []
         for t in tables:
             parts.append(multiline_table(S.table_head_tokens(t), S.table_item_tokens(t), []) if rng.random() < 0.5 else render(S.table_tokens(t)))
-        yield {"gen": "script", "ddl": finish_script(parts), "expected_tables": [S.table_expect(t) for t in tables]}
+        exps = [S.table_expect(t) for t in tables]
+        if rng.random() < 0.5:
+            # a single-column UNIQUE added afterwards by ALTER TABLE to ONE of the tables (often not the last one): it flags that
+            # table's column and says nothing about the same-named columns of the tables declared after it
+            k = rng.randrange(len(tables)) if rng.random() < 0.3 else rng.randrange(max(1, len(tables) - 1))
+            t, exp = tables[k], exps[k]
+            free = [c for c in exp["columns"] if not c["unique"] and c["name"] not in exp["primary_key"]]
+            if free:
+                col = rng.choice(free)
+                ref = (t["schema"] + "." if t["schema"] else "") + t["name"]
+                parts.append("ALTER TABLE %s ADD %sUNIQUE (%s);" % (ref, rng.choice(["", "CONSTRAINT uq_late "]), col["name"]))
+                col["unique"] = True
+        yield {"gen": "script", "ddl": finish_script(parts), "expected_tables": exps}
 
 
 def check_script(ctx, case):
